@@ -770,4 +770,694 @@ theorem build_events (sp : Bool) (l : Loaded) (rq : QName) (ra : List (QName × 
   subst hst0
   simpa using congrArg some hl
 
+/-! ### canonical forests: what a parser delivers is rebuilt exactly -/
+
+def startsChar : Forest → Bool
+  | .cons (.text _) _ => true
+  | .cons (.cdata _) _ => true
+  | _ => false
+
+/-- no CDATA node, no empty text node, no two adjacent text nodes — at every level -/
+def canonB : Forest → Bool
+  | .nil => true
+  | .cons (.text s) t => !s.isEmpty && !startsChar t && canonB t
+  | .cons (.cdata _) _ => false
+  | .cons (.elem _ _ k) t => canonB k && canonB t
+
+def prependT (acc : Str) : Forest → Forest
+  | .cons (.text s) t => .cons (.text (acc ++ s)) t
+  | f => flushT acc f
+
+theorem prependT_nil (f : Forest) : prependT [] f = f := by
+  cases f with
+  | nil => rfl
+  | cons h t => cases h <;> simp [prependT, flushT]
+
+theorem mergeTF_canon : (f : Forest) → (acc : Str) → canonB f = true → mergeTF acc f = prependT acc f
+  | .nil, acc, _ => rfl
+  | .cons (.cdata _) _, _, h => by simp [canonB] at h
+  | .cons (.elem q a k) t, acc, h => by
+    simp only [canonB, Bool.and_eq_true] at h
+    rw [mergeTF, mergeTF_canon k [] h.1, mergeTF_canon t [] h.2, prependT_nil, prependT_nil]
+    rfl
+  | .cons (.text s) t, acc, h => by
+    simp only [canonB, Bool.and_eq_true, Bool.not_eq_true'] at h
+    obtain ⟨⟨hs, hst⟩, hc⟩ := h
+    have hne : (acc ++ s).isEmpty = false := by cases s <;> simp_all
+    cases t with
+    | nil => simp [mergeTF, prependT, flushT, hne]
+    | cons h' t' =>
+      cases h' with
+      | text _ => simp [startsChar] at hst
+      | cdata _ => simp [startsChar] at hst
+      | elem q a k =>
+        have := mergeTF_canon (.cons (.elem q a k) t') (acc ++ s) hc
+        simp only [mergeTF] at this ⊢
+        rw [this]; simp [prependT, flushT, hne]
+
+/-- **a canonical forest is rebuilt as it is** (mixed content in order, white-space-only text kept, nothing
+    stripped, nothing merged because nothing is adjacent) -/
+theorem mergeTF_canon_id (f : Forest) (h : canonB f = true) : mergeTF [] f = f := by
+  rw [mergeTF_canon f [] h, prependT_nil]
+
+theorem canonB_flushT (acc : Str) (f : Forest) (hf : canonB f = true) (hs : startsChar f = false) :
+    canonB (flushT acc f) = true := by
+  unfold flushT
+  by_cases h : acc.isEmpty = true
+  · simp [h, hf]
+  · simp [h, canonB, hf, hs]
+
+theorem canonB_canonTF (acc : Str) (f : Forest) : canonB (canonTF acc f) = true := by
+  fun_induction canonTF acc f with
+  | case1 acc => exact canonB_flushT acc .nil rfl rfl
+  | case2 acc s t ih => exact ih
+  | case3 acc s t ih => exact ih
+  | case4 acc q a kids t ih1 ih2 => exact canonB_flushT acc _ (by simp [canonB, ih1, ih2]) rfl
+
+theorem hasElemF_flushT (acc : Str) (f : Forest) : hasElemF (flushT acc f) = hasElemF f := by
+  unfold flushT; split <;> simp [hasElemF]
+
+theorem hasElemF_canonTF (acc : Str) (f : Forest) : hasElemF (canonTF acc f) = hasElemF f := by
+  fun_induction canonTF acc f with
+  | case1 acc => simp [hasElemF_flushT, hasElemF]
+  | case2 acc s t ih => simpa [hasElemF] using ih
+  | case3 acc s t ih => simpa [hasElemF] using ih
+  | case4 acc q a kids t ih1 ih2 => simp [hasElemF_flushT, hasElemF]
+
+/-- what `load` makes of a section that `save` wrote with content `f` -/
+def lsec (f : Forest) : Forest := secContent (canonTF [] f)
+
+/-- … is the canonical form of `f`; only a section whose whole content is character data loses it -/
+theorem lsec_eq (f : Forest) : lsec f = if hasElemF f then canonTF [] f else .nil := by
+  simp [lsec, secContent, hasElemF_canonTF, mergeTF_canon_id _ (canonB_canonTF [] f)]
+
+mutual
+theorem noTrigN_canon : (n : Node) → noTrigN n = true → noTrigN (canonT n) = true
+  | .text _, _ => rfl
+  | .cdata _, _ => rfl
+  | .elem q a k, h => by
+    simp only [noTrigN, Bool.and_eq_true] at h
+    simp [canonT, noTrigN, h.1, noTrigF_canonTF k [] h.2]
+theorem noTrigF_canonTF : (f : Forest) → (acc : Str) → noTrigF f = true → noTrigF (canonTF acc f) = true
+  | .nil, acc, _ => by unfold canonTF flushT; split <;> simp [noTrigF, noTrigN]
+  | .cons (.text s) t, acc, h => by
+    simp only [noTrigF, noTrigN, Bool.true_and] at h
+    simpa [canonTF] using noTrigF_canonTF t _ h
+  | .cons (.cdata s) t, acc, h => by
+    simp only [noTrigF, noTrigN, Bool.true_and] at h
+    simpa [canonTF] using noTrigF_canonTF t _ h
+  | .cons (.elem q a k) t, acc, h => by
+    simp only [noTrigF, noTrigN, Bool.and_eq_true] at h
+    unfold canonTF flushT
+    split <;> simp [noTrigF, noTrigN, h.1.1, noTrigF_canonTF k [] h.1.2, noTrigF_canonTF t [] h.2]
+end
+
+/-! ### the composite: load what save wrote -/
+
+theorem canonTF_cons_elem (q : QName) (a : List (QName × Str)) (k t : Forest) :
+    canonTF [] (.cons (.elem q a k) t) = .cons (.elem q (huAttrsQ a) (canonTF [] k)) (canonTF [] t) := by
+  simp [canonTF, flushT]
+
+theorem canonTF_nil : canonTF [] .nil = .nil := by simp [canonTF, flushT]
+
+theorem lsec_nil : lsec .nil = .nil := by simp [lsec_eq, hasElemF]
+
+theorem regF_sec_other (s : Sec) (h1 : s ≠ .styles) (h2 : s ≠ .autoStyles) (f : Forest) :
+    regF (some (qOfSec s)) f = [] := by
+  have key : ∀ q a, regOne (some (qOfSec s)) q a = [] := by
+    intro q a
+    unfold regOne
+    have e1 : qOfSec s ≠ qStyles := by cases s <;> first | exact absurd rfl h1 | decide
+    have e2 : qOfSec s ≠ qAutoStyles := by cases s <;> first | exact absurd rfl h2 | decide
+    simp [e1, e2]
+  have : ∀ f : Forest, regF (some (qOfSec s)) f = [] := by
+    intro f
+    fun_induction regF (some (qOfSec s)) f with
+    | case1 => rfl
+    | case2 q a k t ih => simp [key, ih]
+    | case3 _ t ih => exact ih
+    | case4 _ t ih => exact ih
+  exact this f
+
+theorem route_of_sec (sp : Bool) (s : Sec) (h : s = .fontFace → sp = true) : route sp (qOfSec s) = some s := by
+  cases s <;> cases sp <;> first | decide | (exact absurd (h rfl) (by decide))
+
+/-- a written section element, read back -/
+theorem loadKids_secEl (sp : Bool) (l : Loaded) (s : Sec) (f g : Forest) (hr : route sp (qOfSec s) = some s) :
+    loadKids sp l (canonTF [] (.cons (secEl s f) g)) =
+      loadKids sp ⟨l.doc.app s (lsec f), l.names ++ regF (some (qOfSec s)) (canonTF [] f), l.fix⟩ (canonTF [] g) := by
+  simp [secEl, canonTF_cons_elem, loadKids, hr, lsec]
+
+theorem loadKids_ifKids (sp : Bool) (l : Loaded) (s : Sec) (f g : Forest) (hr : route sp (qOfSec s) = some s) :
+    loadKids sp l (canonTF [] (appF (ifKids s f) g)) =
+      loadKids sp ⟨l.doc.app s (lsec f), l.names ++ regF (some (qOfSec s)) (canonTF [] f), l.fix⟩ (canonTF [] g) := by
+  cases f with
+  | nil => simp [ifKids, lsec_nil, Doc.app_nil, canonTF_nil, regF]
+  | cons h t => simpa [ifKids] using loadKids_secEl sp l s (.cons h t) g hr
+
+theorem loadKids_ifKids_skip (l : Loaded) (f g : Forest) :
+    loadKids false l (canonTF [] (appF (ifKids .fontFace f) g)) = loadKids false l (canonTF [] g) := by
+  have hr : route false qFontFace = none := by decide
+  cases f with
+  | nil => simp [ifKids]
+  | cons h t => simp [ifKids, secEl, canonTF_cons_elem, loadKids, qOfSec, hr]
+
+theorem partKidsOK_secEl (sp : Bool) (names : List Str) (s : Sec) (f g : Forest) (hr : route sp (qOfSec s) = some s) :
+    partKidsOK sp names (canonTF [] (.cons (secEl s f) g)) =
+      (noTrigF (canonTF [] f) && fresh names (regF (some (qOfSec s)) (canonTF [] f)) &&
+        partKidsOK sp (names ++ regF (some (qOfSec s)) (canonTF [] f)) (canonTF [] g)) := by
+  simp [secEl, canonTF_cons_elem, partKidsOK, hr]
+
+theorem partKidsOK_ifKids (sp : Bool) (names : List Str) (s : Sec) (f g : Forest) (hr : route sp (qOfSec s) = some s)
+    (hn : noTrigF (canonTF [] f) = true) (hfr : fresh names (regF (some (qOfSec s)) (canonTF [] f)) = true)
+    (hg : partKidsOK sp (names ++ regF (some (qOfSec s)) (canonTF [] f)) (canonTF [] g) = true) :
+    partKidsOK sp names (canonTF [] (appF (ifKids s f) g)) = true := by
+  cases f with
+  | nil => simpa [ifKids, canonTF_nil, regF] using hg
+  | cons h t => simp [ifKids, partKidsOK_secEl sp names s _ g hr, hn, hfr, hg]
+
+theorem partKidsOK_ifKids_skip (names : List Str) (f g : Forest) (hn : noTrigF (canonTF [] f) = true)
+    (hg : partKidsOK false names (canonTF [] g) = true) :
+    partKidsOK false names (canonTF [] (appF (ifKids .fontFace f) g)) = true := by
+  have hr : route false qFontFace = none := by decide
+  cases f with
+  | nil => simpa [ifKids] using hg
+  | cons h t => simp [ifKids, secEl, canonTF_cons_elem, partKidsOK, qOfSec, hr, hn, hg]
+
+theorem trig_roots : isTrigger qDocContent = false ∧ isTrigger qDocStyles = false ∧ isTrigger qDocMeta = false ∧
+    isTrigger qDocSettings = false := by decide
+
+theorem nt (f : Forest) (h : noTrigF f = true) : noTrigF (canonTF [] f) = true := noTrigF_canonTF f [] h
+
+/-- settings.xml / meta.xml: one section, no style names -/
+theorem part_single (l : Loaded) (rq : QName) (s : Sec) (f : Forest) (hf : l.fix = []) (hrq : isTrigger rq = false)
+    (hs1 : s ≠ .styles) (hs2 : s ≠ .autoStyles) (hs3 : s ≠ .fontFace) (hn : noTrigF f = true) :
+    loadPart false l (evN (canonT (.elem rq verAttrs (.cons (secEl s f) .nil)))) =
+      some ⟨l.doc.app s (lsec f), l.names, []⟩ := by
+  have hr := route_of_sec false s (fun h => absurd h hs3)
+  have hreg := regF_sec_other s hs1 hs2 (canonTF [] f)
+  simp only [canonT]
+  rw [build_events false l rq _ _ hf hrq]
+  · rw [loadKids_secEl false l s f .nil hr, hreg]
+    simp [canonTF_nil, loadKids, hf]
+  · rw [partKidsOK_secEl false l.names s f .nil hr, hreg]
+    simp [nt f hn, fresh, canonTF_nil, partKidsOK]
+
+theorem part_content (l : Loaded) (d : Doc) (uc : Forest) (hf : l.fix = [])
+    (h1 : noTrigF d.scripts = true) (h2 : noTrigF d.fontFace = true) (h3 : noTrigF uc = true)
+    (h4 : noTrigF d.body = true) (hfr : fresh l.names (regF (some qAutoStyles) (canonTF [] uc)) = true) :
+    loadPart false l (evN (canonT (contentTree d uc))) =
+      some ⟨((l.doc.app .scripts (lsec d.scripts)).app .autoStyles (lsec uc)).app .body (lsec d.body),
+            l.names ++ regF (some qAutoStyles) (canonTF [] uc), []⟩ := by
+  have r1 := route_of_sec false .scripts (by intro h; cases h)
+  have r2 := route_of_sec false .autoStyles (by intro h; cases h)
+  have r3 := route_of_sec false .body (by intro h; cases h)
+  have g1 := regF_sec_other .scripts (by decide) (by decide)
+  have g3 := regF_sec_other .body (by decide) (by decide)
+  simp only [canonT, contentTree]
+  rw [build_events false l _ _ _ hf trig_roots.1]
+  · rw [loadKids_ifKids false l .scripts _ _ r1, loadKids_ifKids_skip, loadKids_secEl false _ .autoStyles _ _ r2,
+      loadKids_secEl false _ .body _ _ r3, g1, g3]
+    simp [canonTF_nil, loadKids, hf, qOfSec]
+  · refine partKidsOK_ifKids false _ .scripts _ _ r1 (nt _ h1) (by rw [g1]; rfl) ?_
+    rw [g1, List.append_nil]
+    refine partKidsOK_ifKids_skip _ _ _ (nt _ h2) ?_
+    rw [partKidsOK_secEl false _ .autoStyles _ _ r2, partKidsOK_secEl false _ .body _ _ r3, g3]
+    simp [nt _ h3, nt _ h4, fresh, canonTF_nil, partKidsOK]
+    simpa [qOfSec] using hfr
+
+theorem part_styles (l : Loaded) (d : Doc) (us : Forest) (hf : l.fix = [])
+    (h1 : noTrigF d.fontFace = true) (h2 : noTrigF d.styles = true) (h3 : noTrigF us = true)
+    (h4 : noTrigF d.master = true)
+    (hfr : fresh l.names (regF (some qStyles) (canonTF [] d.styles) ++ regF (some qAutoStyles) (canonTF [] us)) = true) :
+    loadPart true l (evN (canonT (stylesTree d us))) =
+      some ⟨(((l.doc.app .fontFace (lsec d.fontFace)).app .styles (lsec d.styles)).app .autoStyles (lsec us)).app
+              .master (lsec d.master),
+            l.names ++ regF (some qStyles) (canonTF [] d.styles) ++ regF (some qAutoStyles) (canonTF [] us), []⟩ := by
+  have r1 := route_of_sec true .fontFace (fun _ => rfl)
+  have r2 := route_of_sec true .styles (fun _ => rfl)
+  have r3 := route_of_sec true .autoStyles (fun _ => rfl)
+  have r4 := route_of_sec true .master (fun _ => rfl)
+  have g1 := regF_sec_other .fontFace (by decide) (by decide)
+  have g4 := regF_sec_other .master (by decide) (by decide)
+  rw [fresh_append] at hfr
+  simp only [Bool.and_eq_true] at hfr
+  have hmast : ∀ g : Forest, appF (ifKids .master d.master) .nil = ifKids .master d.master := fun _ => appF_nil_right _
+  simp only [canonT, stylesTree]
+  rw [build_events true l _ _ _ hf trig_roots.2.1]
+  · rw [loadKids_ifKids true l .fontFace _ _ r1, loadKids_secEl true _ .styles _ _ r2,
+      loadKids_secEl true _ .autoStyles _ _ r3, ← appF_nil_right (ifKids .master d.master),
+      loadKids_ifKids true _ .master _ _ r4, g1, g4]
+    simp [canonTF_nil, loadKids, hf, qOfSec, List.append_assoc]
+  · refine partKidsOK_ifKids true _ .fontFace _ _ r1 (nt _ h1) (by rw [g1]; rfl) ?_
+    rw [g1, List.append_nil, partKidsOK_secEl true _ .styles _ _ r2, partKidsOK_secEl true _ .autoStyles _ _ r3]
+    simp only [Bool.and_eq_true]
+    refine ⟨⟨nt _ h2, by simpa [qOfSec] using hfr.1⟩, ⟨nt _ h3, by simpa [qOfSec] using hfr.2⟩, ?_⟩
+    rw [← appF_nil_right (ifKids .master d.master)]
+    exact partKidsOK_ifKids true _ .master _ _ r4 (nt _ h4) (by rw [g4]; rfl) (by simp [canonTF_nil, partKidsOK])
+
+/-- the XML leg's hypothesis (C02's): an admissible namespace table that covers the four trees -/
+structure XmlOK (tbl : NsTable) (tv : Str) (d : Doc) (uc us : Forest) : Prop where
+  table : TableOK tbl
+  clean : NsClean tbl
+  content : TreeOK tbl (contentTree d uc)
+  styles : TreeOK tbl (stylesTree d us)
+  metaT : TreeOK tbl (metaTree tv d)
+  settings : TreeOK tbl (settingsTree d)
+
+/-- the load leg's hypothesis, decidable (`DocOK` of DESIGN.md = `XmlOK ∧ LoadOK`):
+    * no section element (office:body, office:styles, … — `LoadParser.triggers`) nested inside a section
+      (`finding_nested_section` shows what happens otherwise);
+    * the style:style names registered while loading — automatic styles of content.xml, common styles, automatic
+      styles of styles.xml, in this order — are pairwise distinct (no rename by `__register_stylename`: C11's subject). -/
+def LoadOK (tv : Str) (d : Doc) (uc us : Forest) : Bool :=
+  noTrigF d.settings && noTrigF (normGen tv d.metaS) && noTrigF d.scripts && noTrigF d.fontFace && noTrigF uc &&
+  noTrigF d.body && noTrigF d.styles && noTrigF us && noTrigF d.master &&
+  fresh [] (regF (some qAutoStyles) (canonTF [] uc) ++
+            (regF (some qStyles) (canonTF [] d.styles) ++ regF (some qAutoStyles) (canonTF [] us)))
+
+/-- what `load(save(d))` holds: every section in canonical form (`lsec`), the generator normalised, the automatic
+    styles that were written (content.xml's first, then styles.xml's) -/
+def expected (tv : Str) (d : Doc) (uc us : Forest) : Doc :=
+  { settings := lsec d.settings, metaS := lsec (normGen tv d.metaS), scripts := lsec d.scripts,
+    autoStyles := appF (lsec uc) (lsec us), body := lsec d.body, fontFace := lsec d.fontFace,
+    styles := lsec d.styles, master := lsec d.master }
+
+/-- `__loadxmlparts` on the saved package: settings.xml only if it was written -/
+def loadSaved (ws : Bool) (eS eM eC eY : List Event) : Option Loaded :=
+  loadParts {} ((if ws then [(sSettingsXml, eS)] else []) ++ [(sMetaXml, eM), (sContentXml, eC), (sStylesXml, eY)])
+
+/-- the statement of C04 at model level, for given trees: each written part is accepted by the reference parser,
+    and LoadParser, fed the event stream of what the parser returns under ANY chunking, rebuilds `expected` -/
+def LoadsBack (tbl : NsTable) (tv : Str) (d : Doc) (uc us : Forest) : Prop :=
+  ∃ tS tM tC tY : Node,
+    parseDoc (render tbl (settingsTree d)) = some tS ∧ parseDoc (render tbl (metaTree tv d)) = some tM ∧
+    parseDoc (render tbl (contentTree d uc)) = some tC ∧ parseDoc (render tbl (stylesTree d us)) = some tY ∧
+    ∀ eS eM eC eY : List Event, Chunked (evN tS) eS → Chunked (evN tM) eM → Chunked (evN tC) eC → Chunked (evN tY) eY →
+      ∃ names, loadSaved (writesSettings d) eS eM eC eY = some ⟨expected tv d uc us, names, []⟩
+
+/-- **C04, FULL STATEMENT**: every document that can be written is loaded back.  FALSE on the current tree
+    (`finding_nested_section`, and C11's renames); proved below as `load_save_partial` under `LoadOK`. -/
+def FullStatement : Prop :=
+  ∀ (tbl : NsTable) (tv : Str) (d : Doc) (uc us : Forest), XmlOK tbl tv d uc us → LoadsBack tbl tv d uc us
+
+theorem loadPart_chunked (sp : Bool) (l : Loaded) (evs evs' : List Event) (h : Chunked evs evs') :
+    loadPart sp l evs' = loadPart sp l evs := by
+  unfold loadPart; rw [build_chunk_invariant evs evs' h]
+
+theorem sp_names : stylesPartOf sSettingsXml = false ∧ stylesPartOf sMetaXml = false ∧
+    stylesPartOf sContentXml = false ∧ stylesPartOf sStylesXml = true := by decide
+
+theorem empty_app (s : Sec) (f : Forest) : (({} : Doc).app s f).get s = f := by
+  cases s <;> simp [Doc.app, Doc.set, Doc.get]
+
+/-- **C04 (load_save, partial)**: for every document `d` (eight sections), every selection `uc` / `us` of automatic
+    styles written to content.xml / styles.xml and every admissible namespace table: what `save` writes is accepted
+    by the reference parser, and `load` — LoadParser over the SAX events of the parsed parts, character data chunked
+    in any way, parts in the order settings, meta, content, styles — yields exactly `expected`: each section in
+    canonical form, meta with exactly one generator (`normGen`), the written automatic styles.
+    Restrictions (`LoadOK`): no section element nested inside a section; no style-name collision (C11).
+    Not in the model: attribute converters (values are fixed points: C15), which automatic styles are written (C10:
+    `uc`, `us` are parameters), the zip container, pictures and sub-documents (C03/C16 and the oracle), expat
+    (trusted to deliver the events of the infoset the reference parser computes). -/
+theorem load_save_partial (tbl : NsTable) (tv : Str) (d : Doc) (uc us : Forest)
+    (hx : XmlOK tbl tv d uc us) (hl : LoadOK tv d uc us = true) : LoadsBack tbl tv d uc us := by
+  simp only [LoadOK, Bool.and_eq_true] at hl
+  obtain ⟨⟨⟨⟨⟨⟨⟨⟨⟨n1, n2⟩, n3⟩, n4⟩, n5⟩, n6⟩, n7⟩, n8⟩, n9⟩, hfr⟩ := hl
+  rw [fresh_append] at hfr
+  simp only [Bool.and_eq_true, List.nil_append] at hfr
+  refine ⟨_, _, _, _, parseDoc_render tbl _ _ _ hx.table hx.clean hx.settings,
+    parseDoc_render tbl _ _ _ hx.table hx.clean hx.metaT,
+    parseDoc_render tbl _ _ _ hx.table hx.clean hx.content,
+    parseDoc_render tbl _ _ _ hx.table hx.clean hx.styles, ?_⟩
+  intro eS eM eC eY cS cM cC cY
+  have pS : loadPart false {} (evN (canonT (settingsTree d))) = some ⟨({} : Doc).app .settings (lsec d.settings), [], []⟩ :=
+    part_single {} qDocSettings .settings d.settings rfl trig_roots.2.2.2 (by decide) (by decide) (by decide) n1
+  have pM : ∀ l : Loaded, l.fix = [] → loadPart false l (evN (canonT (metaTree tv d))) =
+      some ⟨l.doc.app .metaS (lsec (normGen tv d.metaS)), l.names, []⟩ :=
+    fun l h => part_single l qDocMeta .metaS _ h trig_roots.2.2.1 (by decide) (by decide) (by decide) n2
+  have pC : ∀ l : Loaded, l.fix = [] → l.names = [] → loadPart false l (evN (canonT (contentTree d uc))) = _ :=
+    fun l h hn => part_content l d uc h n3 n4 n5 n6 (by rw [hn]; exact hfr.1)
+  have pY : ∀ l : Loaded, l.fix = [] → l.names = regF (some qAutoStyles) (canonTF [] uc) →
+      loadPart true l (evN (canonT (stylesTree d us))) = _ :=
+    fun l h hn => part_styles l d us h n4 n7 n8 n9 (by rw [hn]; exact hfr.2)
+  simp only [settingsTree, metaTree, contentTree, stylesTree] at pS pM pC pY
+  refine ⟨regF (some qAutoStyles) (canonTF [] uc) ++ regF (some qStyles) (canonTF [] d.styles) ++
+    regF (some qAutoStyles) (canonTF [] us), ?_⟩
+  unfold loadSaved
+  cases hws : writesSettings d with
+  | true =>
+    simp only [if_true, List.cons_append, List.nil_append, loadParts, sp_names.1, sp_names.2.1, sp_names.2.2.1,
+      sp_names.2.2.2]
+    rw [loadPart_chunked _ _ _ _ cS, pS]
+    simp only []
+    rw [loadPart_chunked _ _ _ _ cM, pM _ rfl]
+    simp only []
+    rw [loadPart_chunked _ _ _ _ cC, pC _ rfl rfl]
+    simp only []
+    rw [loadPart_chunked _ _ _ _ cY, pY _ rfl (by simp)]
+    simp [expected, Doc.app, Doc.set, Doc.get]
+  | false =>
+    have hset : d.settings = .nil := by
+      cases h : d.settings with
+      | nil => rfl
+      | cons a b => simp [writesSettings, h] at hws
+    simp only [Bool.false_eq_true, if_false, List.nil_append, loadParts, sp_names.2.1, sp_names.2.2.1, sp_names.2.2.2]
+    rw [loadPart_chunked _ _ _ _ cM, pM _ rfl]
+    simp only []
+    rw [loadPart_chunked _ _ _ _ cC, pC _ rfl rfl]
+    simp only []
+    rw [loadPart_chunked _ _ _ _ cY, pY _ rfl (by simp)]
+    simp [expected, Doc.app, Doc.set, Doc.get, hset, lsec_nil]
+
+/-! ### the canonical form is a fixed point of the parser's normalisation (needed for "second generation") -/
+
+theorem hu_idem (c : Cp) : hu (hu c) = hu c := by
+  unfold hu
+  by_cases h : filtered c = true
+  · have : filtered 0xFFFD = false := by decide
+    simp [h, this]
+  · simp [h]
+
+theorem map_hu_idem (s : Str) : (s.map hu).map hu = s.map hu := by
+  simp [List.map_map, Function.comp_def, hu_idem]
+
+theorem huAttrsQ_idem (a : List (QName × Str)) : huAttrsQ (huAttrsQ a) = huAttrsQ a := by
+  induction a with
+  | nil => rfl
+  | cons x r ih => obtain ⟨q, v⟩ := x; simp [huAttrsQ, ih, hu_idem]
+
+mutual
+/-- every string of the tree filtered through `hu` -/
+def huN : Node → Node
+  | .text s => .text (s.map hu)
+  | .cdata s => .cdata (s.map hu)
+  | .elem q a k => .elem q (huAttrsQ a) (huF k)
+def huF : Forest → Forest
+  | .nil => .nil
+  | .cons h t => .cons (huN h) (huF t)
+end
+
+theorem huF_flushT (acc : Str) (f : Forest) : huF (flushT acc f) = flushT (acc.map hu) (huF f) := by
+  unfold flushT
+  by_cases h : acc.isEmpty = true
+  · have := isEmpty_eq_nil h; subst this; simp
+  · have h2 : (acc.map hu).isEmpty = false := by cases acc <;> simp_all
+    simp [h, h2, huF, huN]
+
+theorem huF_canonTF (acc : Str) (f : Forest) (ha : acc.map hu = acc) : huF (canonTF acc f) = canonTF acc f := by
+  fun_induction canonTF acc f with
+  | case1 acc => simp [huF_flushT, ha, huF]
+  | case2 acc s t ih => exact ih (by simp [ha, hu_idem])
+  | case3 acc s t ih => exact ih (by simp [ha, hu_idem])
+  | case4 acc q a kids t ih1 ih2 => simp [huF_flushT, ha, huF, huN, huAttrsQ_idem, ih1 rfl, ih2 rfl]
+
+theorem canonTF_eq_merge (acc : Str) (f : Forest) : canonTF acc f = mergeTF acc (huF f) := by
+  fun_induction canonTF acc f with
+  | case1 acc => simp [huF, mergeTF]
+  | case2 acc s t ih => simpa [huF, huN, mergeTF] using ih
+  | case3 acc s t ih => simpa [huF, huN, mergeTF] using ih
+  | case4 acc q a kids t ih1 ih2 => simp [huF, huN, mergeTF, ih1, ih2]
+
+theorem canonTF_idem (f : Forest) : canonTF [] (canonTF [] f) = canonTF [] f := by
+  rw [canonTF_eq_merge [] (canonTF [] f), huF_canonTF [] f rfl, mergeTF_canon_id _ (canonB_canonTF [] f)]
+
+theorem canonT_idem (q : QName) (a : List (QName × Str)) (k : Forest) :
+    canonT (canonT (.elem q a k)) = canonT (.elem q a k) := by
+  simp [canonT, huAttrsQ_idem, canonTF_idem]
+
+/-! ### second generation -/
+
+/-- a section is empty or has at least one element child (true of every section a schema-directed document has:
+    none of the eight section elements may hold character data) -/
+def secOK : Forest → Bool
+  | .nil => true
+  | f => hasElemF f
+
+def SecsOK (d : Doc) (uc us : Forest) : Bool :=
+  secOK d.settings && secOK d.scripts && secOK d.fontFace && secOK uc && secOK d.body && secOK d.styles && secOK us &&
+  secOK d.master
+
+theorem lsec_secOK (f : Forest) (h : secOK f = true) : lsec f = canonTF [] f := by
+  cases f with
+  | nil => simp [lsec_nil, canonTF_nil]
+  | cons a t => simp only [secOK] at h; simp [lsec_eq, h]
+
+theorem ifKids_canon (s : Sec) (f g : Forest) (h : secOK f = true) :
+    canonTF [] (appF (ifKids s f) g) = appF (ifKids s (lsec f)) (canonTF [] g) := by
+  rw [lsec_secOK f h]
+  cases f with
+  | nil => simp [ifKids, canonTF_nil]
+  | cons a t =>
+    simp only [secOK] at h
+    have he : hasElemF (canonTF [] (.cons a t)) = true := by rw [hasElemF_canonTF]; exact h
+    cases hc : canonTF [] (.cons a t) with
+    | nil => rw [hc] at he; simp [hasElemF] at he
+    | cons a' t' => simp [ifKids, secEl, canonTF_cons_elem, hc, huAttrsQ]
+
+theorem secEl_canon (s : Sec) (f g : Forest) (h : secOK f = true) :
+    canonTF [] (.cons (secEl s f) g) = .cons (secEl s (lsec f)) (canonTF [] g) := by
+  rw [lsec_secOK f h]; simp [secEl, canonTF_cons_elem, huAttrsQ]
+
+theorem ver_stable : huAttrsQ verAttrs = verAttrs := by decide
+
+def noGenB : Forest → Bool
+  | .nil => true
+  | .cons h t => !isGen h && noGenB t
+
+theorem noGenB_filterNG : (m : Forest) → noGenB (filterNG m) = true
+  | .nil => rfl
+  | .cons h t => by
+    unfold filterNG
+    by_cases hg : isGen h = true
+    · simp [hg, noGenB_filterNG t]
+    · simp [hg, noGenB, noGenB_filterNG t]
+
+theorem filterNG_flushT (acc : Str) (f : Forest) : filterNG (flushT acc f) = flushT acc (filterNG f) := by
+  unfold flushT; split <;> simp [filterNG, isGen]
+
+theorem canon_genNode (tv : Str) (htv : tv.map hu = tv) (acc : Str) :
+    canonTF acc (.cons (genNode tv) .nil) = flushT acc (.cons (genNode tv) .nil) := by
+  unfold genNode
+  by_cases h : tv.isEmpty = true
+  · simp [h, canonTF, huAttrsQ, flushT]
+  · have h2 : tv ≠ [] := by intro e; simp [e] at h
+    simp [h, canonTF, huAttrsQ, flushT, htv, h2]
+
+theorem gen_fix (tv : Str) (htv : tv.map hu = tv) : (X : Forest) → (acc : Str) → noGenB X = true →
+    appF (filterNG (canonTF acc (appF X (.cons (genNode tv) .nil)))) (.cons (genNode tv) .nil) =
+      canonTF acc (appF X (.cons (genNode tv) .nil))
+  | .nil, acc, _ => by
+    have hg : isGen (genNode tv) = true := by simp [genNode, isGen]
+    simp [canon_genNode tv htv, filterNG_flushT, filterNG, hg, appF_flushT]
+  | .cons (.text s) t, acc, h => by
+    simp only [noGenB, isGen, Bool.not_false, Bool.true_and] at h
+    simpa [canonTF] using gen_fix tv htv t _ h
+  | .cons (.cdata s) t, acc, h => by
+    simp only [noGenB, isGen, Bool.not_false, Bool.true_and] at h
+    simpa [canonTF] using gen_fix tv htv t _ h
+  | .cons (.elem q a k) t, acc, h => by
+    simp only [noGenB, Bool.and_eq_true, Bool.not_eq_true'] at h
+    have hq : isGen (.elem q (huAttrsQ a) (canonTF [] k)) = false := by simpa [isGen] using h.1
+    simp only [appF_cons, canonTF, filterNG_flushT, filterNG, hq, Bool.false_eq_true, if_false, appF_flushT]
+    rw [gen_fix tv htv t [] h.2]
+
+theorem hasElemF_appF_elem (X : Forest) (q : QName) (a : List (QName × Str)) (k : Forest) :
+    hasElemF (appF X (.cons (.elem q a k) .nil)) = true := by
+  fun_induction hasElemF X <;> simp_all [hasElemF]
+
+theorem normGen_fix (tv : Str) (htv : tv.map hu = tv) (m : Forest) :
+    normGen tv (lsec (normGen tv m)) = canonTF [] (normGen tv m) := by
+  have he : hasElemF (normGen tv m) = true := by unfold normGen genNode; exact hasElemF_appF_elem _ _ _ _
+  rw [lsec_eq, he]
+  simp only [if_true, normGen]
+  exact gen_fix tv htv (filterNG m) [] (noGenB_filterNG m)
+
+/-- **C04 (second generation, partial)**: saving the loaded document writes, part by part, exactly the infoset of
+    the first package (`canonT` of the tree that was written = what the reference parser returns for it), with the
+    generator still named exactly once; settings.xml is written the second time iff it was the first time.
+    Hypotheses: `SecsOK` (no section consists of character data only), the library version string has no filtered
+    character, and — C10's subject — the second save selects for each part the automatic styles that were loaded
+    from it (`lsec uc`, `lsec us`). -/
+theorem second_generation_partial (tv : Str) (d : Doc) (uc us : Forest) (hs : SecsOK d uc us = true)
+    (htv : tv.map hu = tv) :
+    contentTree (expected tv d uc us) (lsec uc) = canonT (contentTree d uc) ∧
+    stylesTree (expected tv d uc us) (lsec us) = canonT (stylesTree d us) ∧
+    metaTree tv (expected tv d uc us) = canonT (metaTree tv d) ∧
+    settingsTree (expected tv d uc us) = canonT (settingsTree d) ∧
+    writesSettings (expected tv d uc us) = writesSettings d := by
+  simp only [SecsOK, Bool.and_eq_true] at hs
+  obtain ⟨⟨⟨⟨⟨⟨⟨o1, o2⟩, o3⟩, o4⟩, o5⟩, o6⟩, o7⟩, o8⟩ := hs
+  refine ⟨?_, ?_, ?_, ?_, ?_⟩
+  · simp only [contentTree, canonT, expected, ver_stable]
+    rw [ifKids_canon _ _ _ o2, ifKids_canon _ _ _ o3, secEl_canon _ _ _ o4, secEl_canon _ _ _ o5, canonTF_nil]
+  · simp only [stylesTree, canonT, expected, ver_stable]
+    rw [ifKids_canon _ _ _ o3, secEl_canon _ _ _ o6, secEl_canon _ _ _ o7]
+    have := ifKids_canon .master d.master .nil o8
+    simp only [appF_nil_right, canonTF_nil] at this
+    rw [this]
+  · simp only [metaTree, canonT, expected, ver_stable]
+    rw [normGen_fix tv htv]
+    simp [secEl, canonTF_cons_elem, huAttrsQ, canonTF_nil]
+  · simp only [settingsTree, canonT, expected, ver_stable]
+    rw [secEl_canon _ _ _ o1, canonTF_nil]
+  · simp only [expected, writesSettings]
+    rw [lsec_secOK _ o1]
+    cases hd : d.settings with
+    | nil => simp [canonTF_nil]
+    | cons a t =>
+      rw [hd] at o1; simp only [secOK] at o1
+      have he : hasElemF (canonTF [] (.cons a t)) = true := by rw [hasElemF_canonTF]; exact o1
+      cases hc : canonTF [] (.cons a t) with
+      | nil => rw [hc] at he; simp [hasElemF] at he
+      | cons a' t' => rfl
+
+/-- … hence both generations have the same infoset (the reference parser returns the same tree for both) -/
+theorem second_generation_infoset (tbl : NsTable) (tv : Str) (d : Doc) (uc us : Forest)
+    (hx : XmlOK tbl tv d uc us) (hs : SecsOK d uc us = true) (htv : tv.map hu = tv) :
+    parseDoc (render tbl (contentTree (expected tv d uc us) (lsec uc))) = parseDoc (render tbl (contentTree d uc)) ∧
+    parseDoc (render tbl (stylesTree (expected tv d uc us) (lsec us))) = parseDoc (render tbl (stylesTree d us)) ∧
+    parseDoc (render tbl (metaTree tv (expected tv d uc us))) = parseDoc (render tbl (metaTree tv d)) ∧
+    parseDoc (render tbl (settingsTree (expected tv d uc us))) = parseDoc (render tbl (settingsTree d)) := by
+  obtain ⟨e1, e2, e3, e4, _⟩ := second_generation_partial tv d uc us hs htv
+  have key : ∀ (q : QName) (a : List (QName × Str)) (k : Forest), TreeOK tbl (.elem q a k) →
+      parseDoc (render tbl (canonT (.elem q a k))) = parseDoc (render tbl (.elem q a k)) := by
+    intro q a k h
+    rw [parseDoc_render tbl q a k hx.table hx.clean h]
+    have h2 := treeOK_canonT q a k h
+    simp only [canonT] at h2 ⊢
+    rw [parseDoc_render tbl q _ _ hx.table hx.clean h2]
+    have := canonT_idem q a k
+    simp only [canonT] at this ⊢
+    rw [this]
+  rw [e1, e2, e3, e4]
+  exact ⟨key _ _ _ hx.content, key _ _ _ hx.styles, key _ _ _ hx.metaT, key _ _ _ hx.settings⟩
+
+/-! ### proved counter-examples (known findings) -/
+
+def topNames : Forest → List QName
+  | .nil => []
+  | .cons (.elem q _ _) t => q :: topNames t
+  | .cons _ t => topNames t
+
+/-- `u:a`, `u:b`, `u:c` in the namespace "u" -/
+def exQ (c : Nat) : QName := ⟨[117], [c]⟩
+def exE (c : Nat) : Node := .elem (exQ c) [] .nil
+
+/-- content.xml whose body is `<u:a/> <office:settings><u:c/></office:settings> <u:b/>` (the schema allows an inline
+    office:document, with its own office:settings / office:body …, inside draw:object) -/
+def nestedPart : Node :=
+  .elem qDocContent [] (.cons (.elem qBody []
+    (.cons (exE 97) (.cons (.elem qSettings [] (.cons (exE 99) .nil)) (.cons (exE 98) .nil)))) .nil)
+
+/-- **known finding KF-C04-8, proved on the model**: the nested office:settings is routed to the OUTER document's
+    settings, the body keeps only what came before it (`u:b` is lost: the inner end tag switched the parser off),
+    and the nested element itself is not in the body. -/
+theorem finding_nested_section :
+    (loadPart false {} (evN nestedPart)).map (fun l => (topNames l.doc.body, topNames l.doc.settings)) =
+      some ([exQ 97], [exQ 99]) := by decide
+
+/-- … and this is exactly what `LoadOK` excludes -/
+theorem nested_not_LoadOK : noTrigF (.cons (exE 97) (.cons (.elem qSettings [] (.cons (exE 99) .nil)) (.cons (exE 98) .nil))) = false := by
+  decide
+
+/-- `Object 1/styles.xml` -/
+def sObj1Styles : Str := [79, 98, 106, 101, 99, 116, 32, 49, 47] ++ sStylesXml
+
+/-- styles.xml of a sub-document with one font declaration -/
+def fontsPart : Node :=
+  .elem qDocStyles [] (.cons (.elem qFontFace [] (.cons (exE 102) .nil)) (.cons (.elem qStyles [] (.cons (exE 115) .nil)) .nil))
+
+/-- **known finding KF-C04-4 / KF-C05-4, proved on the model**: `doc._parsing == "styles.xml"` is false for the
+    member "Object 1/styles.xml", so the font declarations of a sub-document are skipped in styles.xml too, while the
+    same part loaded as the top document's styles.xml keeps them. -/
+theorem finding_subdocument_fonts :
+    stylesPartOf sObj1Styles = false ∧
+    (loadPart (stylesPartOf sObj1Styles) {} (evN fontsPart)).map (fun l => (topNames l.doc.fontFace, topNames l.doc.styles)) =
+      some ([], [exQ 115]) ∧
+    (loadPart (stylesPartOf sStylesXml) {} (evN fontsPart)).map (fun l => (topNames l.doc.fontFace, topNames l.doc.styles)) =
+      some ([exQ 102], [exQ 115]) := by decide
+
+/-! ### the hypotheses are satisfiable -/
+
+/-- namespace table: office ↦ "o", meta ↦ "m", "u" ↦ "p" -/
+def exTbl : NsTable := [(OFFICENS, [111]), (METANS, [109]), ([117], [112])]
+
+/-- body `<u:a>x y<u:b/> </u:a>` (mixed content, white-space-only text), one common style element, the rest empty -/
+def exDoc : Doc :=
+  { body := .cons (.elem (exQ 97) [] (.cons (.text [120, 32, 121]) (.cons (exE 98) (.cons (.text [32]) .nil)))) .nil,
+    styles := .cons (exE 115) .nil }
+
+theorem exTbl_ok : TableOK exTbl := by
+  refine ⟨by decide, ?_⟩
+  intro e he
+  simp only [exTbl, List.mem_cons, List.not_mem_nil, or_false] at he
+  rcases he with rfl | rfl | rfl <;> refine ⟨by decide, by decide, by decide, ?_⟩ <;> unfold StrOK <;> decide
+
+/-- a decision procedure for the XML layer's `TreeOK` (so that `XmlOK` can be checked by evaluation) -/
+def strOKb (s : Str) : Bool := s.all (fun c => decide (c < 0x110000))
+def qnameOKb (q : QName) : Bool := isNCName q.loc && (!q.ns.isEmpty || decide (q.loc ≠ XMLNS_NAME))
+def coveredB (tbl : NsTable) (q : QName) : Bool := q.ns.isEmpty || (lookupNs tbl q.ns).isSome
+def attrsOKb (tbl : NsTable) (as : List (QName × Str)) : Bool :=
+  nodupQ as && as.all (fun a => qnameOKb a.1 && coveredB tbl a.1 && strOKb a.2)
+
+mutual
+def treeOKb (tbl : NsTable) : Node → Bool
+  | .text s => strOKb s
+  | .cdata s => strOKb s
+  | .elem q a k => qnameOKb q && coveredB tbl q && attrsOKb tbl a && forestOKb tbl k
+def forestOKb (tbl : NsTable) : Forest → Bool
+  | .nil => true
+  | .cons h t => treeOKb tbl h && forestOKb tbl t
+end
+
+theorem strOKb_sound {s : Str} (h : strOKb s = true) : StrOK s := by
+  intro c hc; simp only [strOKb, List.all_eq_true, decide_eq_true_eq] at h; exact h c hc
+
+theorem qnameOKb_sound {q : QName} (h : qnameOKb q = true) : QNameOK q := by
+  simp only [qnameOKb, Bool.and_eq_true, Bool.or_eq_true, Bool.not_eq_true', decide_eq_true_eq] at h
+  refine ⟨h.1, fun hn => ?_⟩
+  rcases h.2 with h2 | h2
+  · simp [hn] at h2
+  · exact h2
+
+theorem coveredB_sound {tbl : NsTable} {q : QName} (h : coveredB tbl q = true) : Covered tbl q := by
+  simp only [coveredB, Bool.or_eq_true] at h
+  rcases h with h | h
+  · left; exact isEmpty_eq_nil h
+  · right; cases hl : lookupNs tbl q.ns with
+    | none => simp [hl] at h
+    | some p => exact ⟨p, rfl⟩
+
+theorem attrsOKb_sound {tbl : NsTable} {as : List (QName × Str)} (h : attrsOKb tbl as = true) : AttrsQOK tbl as := by
+  simp only [attrsOKb, Bool.and_eq_true, List.all_eq_true] at h
+  exact ⟨h.1, fun a ha => ⟨qnameOKb_sound (h.2 a ha).1.1, coveredB_sound (h.2 a ha).1.2, strOKb_sound (h.2 a ha).2⟩⟩
+
+mutual
+theorem treeOKb_sound (tbl : NsTable) : (n : Node) → treeOKb tbl n = true → TreeOK tbl n
+  | .text s, h => strOKb_sound (by simpa [treeOKb] using h)
+  | .cdata s, h => strOKb_sound (by simpa [treeOKb] using h)
+  | .elem q a k, h => by
+    simp only [treeOKb, Bool.and_eq_true] at h
+    exact ⟨qnameOKb_sound h.1.1.1, coveredB_sound h.1.1.2, attrsOKb_sound h.1.2, forestOKb_sound tbl k h.2⟩
+theorem forestOKb_sound (tbl : NsTable) : (f : Forest) → forestOKb tbl f = true → ForestOK tbl f
+  | .nil, _ => trivial
+  | .cons h t, hh => by
+    simp only [forestOKb, Bool.and_eq_true] at hh
+    exact ⟨treeOKb_sound tbl h hh.1, forestOKb_sound tbl t hh.2⟩
+end
+
+/-- non-vacuity: all hypotheses of `load_save_partial`, `second_generation_partial` hold for a document with mixed
+    content and white-space-only text in the body, a common style, the library's generator string "T" -/
+example : XmlOK exTbl [84] exDoc .nil .nil ∧ LoadOK [84] exDoc .nil .nil = true ∧ SecsOK exDoc .nil .nil = true ∧
+    ([84] : Str).map hu = [84] := by
+  refine ⟨⟨exTbl_ok, ?_, ?_, ?_, ?_, ?_⟩, by decide, by decide, by decide⟩
+  · intro e he
+    simp only [exTbl, List.mem_cons, List.not_mem_nil, or_false] at he
+    rcases he with rfl | rfl | rfl <;> decide
+  · exact treeOKb_sound _ _ (by decide)
+  · exact treeOKb_sound _ _ (by decide)
+  · exact treeOKb_sound _ _ (by decide)
+  · exact treeOKb_sound _ _ (by decide)
+
 end OdfModel.Props.C04
